@@ -18,7 +18,8 @@ pub struct C06;
 
 const NAMES: &[&str] = &["m", "n", "m_x"];
 // (two of the help texts are also constant label names, one is a variable label name with the '$' the dimension hash puts in front)
-const HELPS: &[&str] = &["h", "g", "k", "j", "$v"];
+// (... and two differ from the first only in white space at an end)
+const HELPS: &[&str] = &["h", "g", "k", "j", "$v", "h ", " h"];
 const CNAMES: &[&str] = &["k", "j"];
 const CVALUES: &[&str] = &["1", "2"];
 const VNAMES: &[&str] = &["v", "w"];
@@ -449,7 +450,7 @@ impl Property for C06 {
     }
     fn rule(&self) -> &'static str {
         "case = pool of 3-7 collectors (Counter, CounterVec, custom single- and multi-descriptor collectors) over overlapping pools \
-         of 3 names, 5 help texts (two of them equal to constant label names, one to a variable label name with a dollar sign in front), 2 constant-label names x 2 values, 2 variable-label names (listed in ascending or descending order; a sibling may list them the other way round), later collectors derived from earlier \
+         of 3 names, 7 help texts (two of them equal to constant label names, one to a variable label name with a dollar sign in front, two differing from another only in white space at an end), 2 constant-label names x 2 values, 2 variable-label names (listed in ascending or descending order; a sibling may list them the other way round), later collectors derived from earlier \
          ones (equal / sibling with another constant value / other help), in 2% of cases on top of 50-550 registered background \
          collectors; then a history of 4-30 register/unregister/gather calls. \
          Oracles: (1) reference model of admission (identity keys, per-name signatures of everything ever registered), error kind \
